@@ -1,11 +1,11 @@
 package rules
 
 import (
-	"os"
 	"fmt"
 	"go/ast"
 	"go/token"
 	"go/types"
+	"os"
 	"regexp"
 	"strconv"
 	"strings"
@@ -324,7 +324,6 @@ func valueSources(v ssa.Value, out map[ssa.Value]bool, depth int) {
 }
 
 var idxExceptions = map[string]string{
-	"format/caff.decodeCAFF|make len|1": "allocation size from a 32-bit count: non-negative on 64-bit int; a merely large allocation is not one of the claimed fault classes",
 	"format/jpeg.jpegDecode$1$1$5$2|make len|1": "allocation size from a 32-bit count (extended XMP full_length): non-negative on 64-bit int; the later copy offset is validated against it",
 }
 
@@ -393,8 +392,44 @@ func c06Idx(r *fw.Run, p *fw.Program, reach map[*ssa.Function]bool) {
 			key := fmt.Sprintf("%s|%s|%d", fw.ShortFn(fn), what, ord[what])
 			srcs := map[ssa.Value]bool{}
 			valueSources(v, srcs, 0)
+			// a signed operand whose reader can deliver a value that is negative after conversion (signed reader,
+			// 64-bit unsigned reader, LEB128, custom reader function) must also be proved >= 0 where it is used:
+			// an upper-bound test alone lets the wrapped value through
+			needLo := false
+			if !isUnsignedT(v.Type()) {
+				if rng, ok := readerCallRange(c, 0); !ok || !rng.NonNeg() || rng.HiInf {
+					needLo = true
+				}
+			}
 			for s := range srcs {
 				if compared[s] {
+					if needLo {
+						lenv := fw.NewIntervalEnv(fn)
+						lenv.CallRange = readerCallRange
+						if !c06ProvedNonNeg(lenv, v, ins.Block()) {
+							if reason, ok := idxExceptions[key]; ok {
+								ru.Except(key, p.Rel(ins.Pos()), reason)
+								return
+							}
+							ru.Fail(key, p.Rel(ins.Pos()), fmt.Sprintf("%s by the result of %s() converted to a signed integer: the operand is compared in the function but not proved >= 0 where it is used, so a value that is negative after the conversion (2^63 and above, or a negative signed read) passes an upper-bound test and faults (slice bounds / index out of range, makeslice: len out of range)", what, c.Common().StaticCallee().Name()))
+							return
+						}
+					}
+					if what == "index" || what == "slice low" || what == "slice high" {
+						penv := c06NewPolyEnv(fn)
+						rel := fw.LE
+						if what == "index" {
+							rel = fw.LT
+						}
+						if !c06ProvedInside(penv, cont, v, rel, ins.Block()) {
+							if reason, ok := idxExceptions[key]; ok {
+								ru.Except(key, p.Rel(ins.Pos()), reason)
+								return
+							}
+							ru.Fail(key, p.Rel(ins.Pos()), fmt.Sprintf("%s by the result of %s(): the operand is compared in the function, but no dominating test whose failing arm stops relates it to the length of the container it is used on (wrong length, or a test that does not stop the decode)", what, c.Common().StaticCallee().Name()))
+							return
+						}
+					}
 					ru.Ok(key, p.Rel(ins.Pos()), "operand validated in the function")
 					return
 				}
@@ -493,6 +528,51 @@ func c06Force(r *fw.Run, p *fw.Program) {
 						continue
 					}
 					for _, ins := range nb.Instrs {
+						// a closure created under the test: its body runs with the rejected value too. Accesses in it to
+						// the container whose length the test is about need their own real guard.
+						if mc, isMC := ins.(*ssa.MakeClosure); isMC && relationalGuard {
+							lenPaths := map[string]bool{}
+							for v := range tested {
+								if call, ok := v.(*ssa.Call); ok && fw.IsBuiltinCall(call, "len") {
+									if ap, ok := fw.AccessPath(call.Common().Args[0]); ok {
+										lenPaths[strings.TrimPrefix(ap, "local:")] = true
+									}
+								}
+							}
+							if len(lenPaths) > 0 {
+								for _, cf := range fw.WithClosures(mc.Fn.(*ssa.Function)) {
+									var penv *fw.PolyEnv
+									fw.EachInstr(cf, func(ci ssa.Instruction) {
+										var cont, idx ssa.Value
+										switch y := ci.(type) {
+										case *ssa.IndexAddr:
+											cont, idx = y.X, y.Index
+										case *ssa.Index:
+											cont, idx = y.X, y.Index
+										default:
+											return
+										}
+										if _, isC := idx.(*ssa.Const); isC {
+											return
+										}
+										ap, ok := fw.AccessPath(cont)
+										if !ok || !lenPaths[strings.TrimPrefix(ap, "local:")] {
+											return
+										}
+										if penv == nil {
+											penv = c06NewPolyEnv(cf)
+										}
+										la, _ := c06LenAtom(penv, cont)
+										if c06ProvedInside(penv, cont, idx, fw.LT, ci.Block()) || c06CounterBelow(penv, idx, la) || c06RangeIndexOf(idx, cont) {
+											return
+										}
+										ord++
+										key := fmt.Sprintf("%s|index in %s|%d", fw.ShortFn(fn), fw.ShortFn(cf), ord)
+										ru.Fail(key, p.Rel(ci.Pos()), fmt.Sprintf("index into %s in a closure created under a length test of %s that fails through d.Errorf (%s), which returns under --force: the access runs with the rejected length", ap, ap, p.Rel(ifi.Pos())))
+									})
+								}
+							}
+						}
 						// the tested value handed to a callee that uses the parameter at a fault site without its own proof
 						if ci, isCall := ins.(ssa.CallInstruction); isCall && relationalGuard {
 							for _, callee := range resolveLocalCallees(ci, fn) {
@@ -531,6 +611,7 @@ func c06Force(r *fw.Run, p *fw.Program) {
 							}
 						}
 						var operands []ssa.Value
+						var container ssa.Value
 						what := ""
 						switch x := ins.(type) {
 						case *ssa.BinOp:
@@ -545,13 +626,13 @@ func c06Force(r *fw.Run, p *fw.Program) {
 								}
 							}
 						case *ssa.IndexAddr:
-							operands, what = []ssa.Value{x.Index}, "index"
+							operands, what, container = []ssa.Value{x.Index}, "index", x.X
 						case *ssa.Index:
 							if _, isMap := x.X.Type().Underlying().(*types.Map); !isMap {
-								operands, what = []ssa.Value{x.Index}, "index"
+								operands, what, container = []ssa.Value{x.Index}, "index", x.X
 							}
 						case *ssa.Slice:
-							operands, what = []ssa.Value{x.Low, x.High}, "slice bound"
+							operands, what, container = []ssa.Value{x.Low, x.High}, "slice bound", x.X
 						case *ssa.MakeSlice:
 							operands, what = []ssa.Value{x.Len}, "make size"
 						}
@@ -571,6 +652,29 @@ func c06Force(r *fw.Run, p *fw.Program) {
 								}
 								if tested[s] {
 									hit = true
+								}
+							}
+							if !hit && container != nil && (what == "index" || what == "slice bound") && c06TestsLenOf(tested, container) {
+								// the Errorf test is about the length of the very container indexed here (`if len(x) < n
+								// { d.Errorf }` before a loop over n): it protects the access unless a real guard does
+								switch container.Type().Underlying().(type) {
+								case *types.Slice, *types.Basic:
+									penv := c06NewPolyEnv(fn)
+									rel := fw.LT
+									if what != "index" {
+										rel = fw.LE
+									}
+									inside := c06ProvedInside(penv, container, o, rel, nb)
+									if !inside && what == "index" {
+										if _, isPhi := stripIntConv(o).(*ssa.Phi); isPhi {
+											la, _ := c06LenAtom(penv, container)
+											inside = c06CounterBelow(penv, o, la)
+										}
+									}
+									if !inside && c06RangeIndexOf(o, container) {
+										inside = true
+									}
+									hit = !inside
 								}
 							}
 							if !hit {
@@ -1156,7 +1260,7 @@ func constLenOf(v ssa.Value) (int64, bool) {
 // C06.bufslice: a slice of a buffer of known length L is bounded by L
 
 func c06BufSlice(r *fw.Run, p *fw.Program, reach map[*ssa.Function]bool) {
-	ru := r.Rule("C06.bufslice", "in pkg/decode, a buffer obtained with a known length L (TryBytesLen(L), BytesLen(L), make([]byte, L)) is only re-sliced with an upper bound proved <= L (equal to L, min(.., L), or a dominating test)", 2)
+	ru := r.Rule("C06.bufslice", "in pkg/decode, a buffer obtained with a known length L (TryBytesLen(L), BytesLen(L), SharedReadBuf(L), make([]byte, L)) is only re-sliced with an upper bound proved <= L (equal to L, min(.., L), or a dominating test)", 2)
 	for _, fn := range p.FqFunctions() {
 		if pkgRel(fn) != "pkg/decode" {
 			continue
@@ -1205,17 +1309,14 @@ func c06BufSlice(r *fw.Run, p *fw.Program, reach map[*ssa.Function]bool) {
 					all := true
 					for i := range hph.Edges {
 						le := env.Of(lph.Edges[i])
-						good := env.Of(hph.Edges[i]).Equal(le)
-						if c, isCall := stripIntConv(hph.Edges[i]).(*ssa.Call); isCall && fw.IsBuiltinCall(c, "min") {
-							for _, a := range c.Common().Args {
-								if env.Of(a).Equal(le) {
-									good = true
-								}
-							}
+						if c06LeqOnEdges(env, hph.Edges[i], le, 0) {
+							continue
 						}
-						if !good {
-							all = false
+						// the if-form of min: the incoming edge itself carries the comparison
+						if len(hph.Edges) == len(hph.Block().Preds) && fw.ProvesFrom(env.EdgeFacts(hph.Block().Preds[i], hph.Block()), fw.Cmp{P: env.Of(hph.Edges[i]).Sub(le), Rel: fw.LE}) {
+							continue
 						}
+						all = false
 					}
 					okB = all
 				}
@@ -1270,7 +1371,7 @@ func bufLenOf(v ssa.Value, depth int) ssa.Value {
 	case *ssa.Call:
 		if cal := x.Common().StaticCallee(); cal != nil && cal.Signature.Recv() != nil && isDecodeD(cal.Signature.Recv().Type()) {
 			switch cal.Name() {
-			case "TryBytesLen", "BytesLen":
+			case "TryBytesLen", "BytesLen", "SharedReadBuf":
 				return x.Common().Args[1]
 			}
 		}
@@ -1331,24 +1432,31 @@ func c06Alloc(r *fw.Run, p *fw.Program) {
 var boundsExceptions = map[string]string{}
 
 func c06Bounds(r *fw.Run, p *fw.Program, reach map[*ssa.Function]bool) {
-	ru := r.Rule("C06.bounds", "where an index x[i] in decoder code is dominated by a test relating i and len(x) whose failing arm does not continue, that test proves i < len(x) (an off-by-one bounds test is an index-out-of-range fault on crafted input)", 20)
+	ru := r.Rule("C06.bounds", "where an index x[i] or slice bound x[a:b] in decoder code is dominated by a test relating the operand and len(x) whose failing arm does not continue (shared failing arms of `a || b` tests included), that test proves i < len(x) (a, b <= len(x)) (an off-by-one or inverted bounds test is an out-of-range fault on crafted input; the sign of reader-derived operands is C06.idx)", 120)
 	for _, fn := range p.FqFunctions() {
 		if !strings.HasPrefix(pkgRel(fn), "format") && pkgRel(fn) != "pkg/decode" {
 			continue
 		}
 		var env *fw.PolyEnv
 		ord := 0
+		sord := 0
+		cord := map[string]int{}
 		fw.EachInstr(fn, func(ins ssa.Instruction) {
-			var xs, idx ssa.Value
+			type opnd struct {
+				v    ssa.Value
+				what string
+				rel  fw.Rel // required relation of (operand - len) to 0
+			}
+			var xs ssa.Value
+			var ops []opnd
 			switch y := ins.(type) {
 			case *ssa.IndexAddr:
-				xs, idx = y.X, y.Index
+				xs, ops = y.X, []opnd{{y.Index, "index", fw.LT}}
 			case *ssa.Index:
-				xs, idx = y.X, y.Index
+				xs, ops = y.X, []opnd{{y.Index, "index", fw.LT}}
+			case *ssa.Slice:
+				xs, ops = y.X, []opnd{{y.Low, "slice low bound", fw.LE}, {y.High, "slice high bound", fw.LE}}
 			default:
-				return
-			}
-			if _, isC := idx.(*ssa.Const); isC {
 				return
 			}
 			switch xs.Type().Underlying().(type) {
@@ -1356,52 +1464,283 @@ func c06Bounds(r *fw.Run, p *fw.Program, reach map[*ssa.Function]bool) {
 			default:
 				return
 			}
-			path, ok := fw.AccessPath(xs)
-			if !ok {
-				return
-			}
-			if env == nil {
-				env = fw.NewPolyEnv(fn)
-			}
-			lenAtom := "len(" + path + ")"
-			ip := env.Of(idx)
-			// a bounds test for THIS index: a fact whose polynomial is +-(index - len(x)) up to a constant
-			target := fw.StripVersions(ip.Sub(fw.PAtom(lenAtom)))
-			related := false
-			for _, f := range env.Facts(ins.Block()) {
-				fp := fw.StripVersions(f.P)
-				for _, sgn := range []int64{1, -1} {
-					if _, isConst := fp.Sub(target.MulC(sgn)).IsConst(); isConst {
-						related = true
+			for _, o := range ops {
+				idx := o.v
+				if idx == nil {
+					continue
+				}
+				if k, isC := idx.(*ssa.Const); isC {
+					// constant index: where a dominating test gives a lower bound of len(x), it must reach the index
+					if o.what != "index" || k.Value == nil || k.Int64() < 0 {
+						continue
+					}
+					if _, known := constLenOf(xs); known {
+						continue
+					}
+					if env == nil {
+						env = c06NewPolyEnv(fn)
+					}
+					la, cpath := c06LenAtom(env, xs)
+					related, proved := false, false
+					for _, f := range c06Facts(env, ins.Block()) {
+						f.P = fw.StripVersions(f.P)
+						for j := int64(0); j <= k.Int64(); j++ {
+							if f.Implies(fw.Cmp{P: la.Sub(fw.PConst(j)), Rel: fw.GT}) {
+								related = true
+								if j == k.Int64() {
+									proved = true
+								}
+							}
+						}
+						if f.Implies(fw.Cmp{P: la, Rel: fw.NE}) {
+							related = true
+							if k.Int64() == 0 {
+								proved = true
+							}
+						}
+					}
+					if !related {
+						continue
+					}
+					kpath := cpath
+					if _, isPath := fw.AccessPath(xs); !isPath {
+						kpath = "expr"
+					}
+					cord[kpath]++
+					key := fmt.Sprintf("%s|%s[%d]|const#%d", fw.ShortFn(fn), kpath, k.Int64(), cord[kpath])
+					ru.Check(proved, key, p.Rel(ins.Pos()), "length test reaches the constant index", fmt.Sprintf("constant index %d of %s is guarded by a length test that does not prove len > %d (weakened or off-by-one length test)", k.Int64(), cpath, k.Int64()))
+					continue
+				}
+				if env == nil {
+					env = c06NewPolyEnv(fn)
+				}
+				path, ok := fw.AccessPath(xs)
+				lenAtom := "len(" + path + ")"
+				if !ok {
+					if o.what == "index" {
+						// historical scope of the index clause: containers with an access path
+						path = env.Of(xs).String()
+						lenAtom = "len(" + path + ")"
+					} else {
+						path = env.Of(xs).String()
+						lenAtom = "len(" + path + ")"
 					}
 				}
-			}
-			if c, isConst := target.IsConst(); isConst && c < 0 {
-				return // x[len(x)-k]: relation to the length is syntactic
-			}
-			if !related {
-				return
-			}
-			ord++
-			key := fmt.Sprintf("%s|%s|%d", fw.ShortFn(fn), path, ord)
-			// strip store versions: the test and the use read the same slice header in practice
-			want := fw.Cmp{P: fw.StripVersions(ip.Sub(fw.PAtom(lenAtom))), Rel: fw.LT}
-			proved := false
-			for _, f := range env.Facts(ins.Block()) {
-				f.P = fw.StripVersions(f.P)
-				if f.Implies(want) {
-					proved = true
+				ip := env.Of(idx)
+				// a bounds test for THIS operand: a fact whose polynomial is +-(operand - len(x)) up to a constant
+				target := fw.StripVersions(ip.Sub(fw.StripVersions(fw.PAtom(lenAtom))))
+				facts := c06Facts(env, ins.Block())
+				related := false
+				for _, f := range facts {
+					fp := fw.StripVersions(f.P)
+					for _, sgn := range []int64{1, -1} {
+						if _, isConst := fp.Sub(target.MulC(sgn)).IsConst(); isConst {
+							related = true
+						}
+					}
 				}
+				if _, isConst := target.IsConst(); isConst {
+					continue // x[len(x)-k]: relation to the length is syntactic (C06.lenidx)
+				}
+				if !related {
+					continue
+				}
+				var key string
+				kpath := path
+				if !ok {
+					kpath = "expr"
+				}
+				if o.what == "index" {
+					ord++
+					key = fmt.Sprintf("%s|%s|%d", fw.ShortFn(fn), kpath, ord)
+				} else {
+					sord++
+					key = fmt.Sprintf("%s|%s|slice#%d", fw.ShortFn(fn), kpath, sord)
+				}
+				// strip store versions: the test and the use read the same slice header in practice
+				want := fw.Cmp{P: target, Rel: o.rel}
+				proved := false
+				for _, f := range facts {
+					f.P = fw.StripVersions(f.P)
+					if f.Implies(want) {
+						proved = true
+					}
+				}
+				if !proved {
+					if reason, ok := boundsExceptions[key]; ok {
+						ru.Except(key, p.Rel(ins.Pos()), reason)
+						continue
+					}
+					ru.Fail(key, p.Rel(ins.Pos()), o.what+" "+ip.String()+" of "+path+" is guarded by a test against "+lenAtom+" that does not prove it inside the slice (off-by-one or inverted bounds test)")
+					continue
+				}
+				ru.Ok(key, p.Rel(ins.Pos()), "bounds test proves the operand inside the slice")
 			}
-			if proved {
-				ru.Ok(key, p.Rel(ins.Pos()), "bounds test proves index < len")
-				return
-			}
-			if reason, ok := boundsExceptions[key]; ok {
-				ru.Except(key, p.Rel(ins.Pos()), reason)
-				return
-			}
-			ru.Fail(key, p.Rel(ins.Pos()), "index "+ip.String()+" into "+path+" is guarded by a test against "+lenAtom+" that does not prove index < len (off-by-one or inverted bounds test)")
 		})
 	}
+}
+
+// c06RangeIndex: v is the key of a range loop (Next of a range iterator, or the counter phi of a
+// lowered range-over-slice loop: starts at -1 and is incremented before use).
+func c06RangeIndex(v ssa.Value) bool {
+	v = stripIntConv(v)
+	if ex, ok := v.(*ssa.Extract); ok {
+		if _, isNext := ex.Tuple.(*ssa.Next); isNext {
+			return true
+		}
+	}
+	if bo, ok := v.(*ssa.BinOp); ok && bo.Op == token.ADD {
+		if c, isC := bo.Y.(*ssa.Const); isC && c.Value != nil && c.Int64() == 1 {
+			if ph, isPhi := bo.X.(*ssa.Phi); isPhi {
+				for _, e := range ph.Edges {
+					if k, isK := e.(*ssa.Const); isK && k.Value != nil {
+						if k.Int64() < -1 {
+							return false
+						}
+						continue
+					}
+					if e != ssa.Value(bo) {
+						return false
+					}
+				}
+				return true
+			}
+		}
+	}
+	return false
+}
+
+// c06LenAtom: the polynomial atom of len(xs) in env.
+func c06LenAtom(env *fw.PolyEnv, xs ssa.Value) (*fw.Poly, string) {
+	if path, ok := fw.AccessPath(xs); ok {
+		return fw.StripVersions(fw.PAtom("len(" + path + ")")), path
+	}
+	path := env.Of(xs).String()
+	return fw.StripVersions(fw.PAtom("len(" + path + ")")), path
+}
+
+// c06ProvedInside: the facts at block b prove (v - len(xs)) rel 0.
+func c06ProvedInside(env *fw.PolyEnv, xs ssa.Value, v ssa.Value, rel fw.Rel, b *ssa.BasicBlock) bool {
+	la, _ := c06LenAtom(env, xs)
+	want := fw.Cmp{P: fw.StripVersions(env.Of(v)).Sub(la), Rel: rel}
+	if c, isConst := want.P.IsConst(); isConst {
+		return (rel == fw.LT && c < 0) || (rel == fw.LE && c <= 0)
+	}
+	for _, f := range c06Facts(env, b) {
+		f.P = fw.StripVersions(f.P)
+		if f.Implies(want) {
+			return true
+		}
+	}
+	return false
+}
+
+// c06LeqOnEdges: v <= bound, because it is the same polynomial, a min(.., bound), or a merge whose every
+// incoming value is such a value or is proved <= bound by the branch facts on its incoming edge (the
+// if-form of min).
+func c06LeqOnEdges(env *fw.PolyEnv, v ssa.Value, bound *fw.Poly, depth int) bool {
+	if depth > 3 {
+		return false
+	}
+	if env.Of(v).Equal(bound) {
+		return true
+	}
+	sv := stripIntConv(v)
+	if c, isCall := sv.(*ssa.Call); isCall && fw.IsBuiltinCall(c, "min") {
+		for _, a := range c.Common().Args {
+			if env.Of(a).Equal(bound) {
+				return true
+			}
+		}
+	}
+	ph, isPhi := sv.(*ssa.Phi)
+	if !isPhi || len(ph.Edges) != len(ph.Block().Preds) {
+		return false
+	}
+	for i, e := range ph.Edges {
+		if c06LeqOnEdges(env, e, bound, depth+1) {
+			continue
+		}
+		if fw.ProvesFrom(env.EdgeFacts(ph.Block().Preds[i], ph.Block()), fw.Cmp{P: env.Of(e).Sub(bound), Rel: fw.LE}) {
+			continue
+		}
+		return false
+	}
+	return true
+}
+
+// c06TestsLenOf: one of the tested values is len(container) (same value, access path or structure).
+func c06TestsLenOf(tested map[ssa.Value]bool, container ssa.Value) bool {
+	cp, okc := fw.AccessPath(container)
+	csp := ""
+	if ld, ok := container.(*ssa.UnOp); ok && ld.Op == token.MUL {
+		csp, _ = c06StructPath(ld.X, 0)
+	}
+	for v := range tested {
+		call, ok := v.(*ssa.Call)
+		if !ok || !fw.IsBuiltinCall(call, "len") {
+			continue
+		}
+		a := call.Common().Args[0]
+		if a == container {
+			return true
+		}
+		if ap, ok := fw.AccessPath(a); ok && okc && ap == cp {
+			return true
+		}
+		if ld, ok := a.(*ssa.UnOp); ok && ld.Op == token.MUL && csp != "" {
+			if sp, _ := c06StructPath(ld.X, 0); sp == csp {
+				return true
+			}
+		}
+	}
+	return false
+}
+
+// c06CounterBelow: v is a loop counter phi whose every incoming value is proved < bound on its edge.
+func c06CounterBelow(env *fw.PolyEnv, v ssa.Value, bound *fw.Poly) bool {
+	ph, ok := stripIntConv(v).(*ssa.Phi)
+	if !ok || len(ph.Edges) != len(ph.Block().Preds) {
+		return false
+	}
+	for i, e := range ph.Edges {
+		want := fw.Cmp{P: fw.StripVersions(env.Of(e)).Sub(bound), Rel: fw.LT}
+		okE := false
+		for _, f := range env.EdgeFacts(ph.Block().Preds[i], ph.Block()) {
+			f.P = fw.StripVersions(f.P)
+			if f.Implies(want) {
+				okE = true
+			}
+		}
+		if !okE {
+			return false
+		}
+	}
+	return true
+}
+
+// c06RangeIndexOf: v is the key of `for i := range container` (lowered range loop over the same slice value).
+func c06RangeIndexOf(v ssa.Value, container ssa.Value) bool {
+	bo, ok := stripIntConv(v).(*ssa.BinOp)
+	if !ok || bo.Op != token.ADD {
+		return false
+	}
+	ph, ok := bo.X.(*ssa.Phi)
+	if !ok || ph.Comment != "rangeindex" || ph.Referrers() == nil {
+		return false
+	}
+	// the loop test compares the incremented index with len(container)
+	if bo.Referrers() == nil {
+		return false
+	}
+	for _, rf := range *bo.Referrers() {
+		cmp, ok := rf.(*ssa.BinOp)
+		if !ok || cmp.Op != token.LSS || cmp.X != ssa.Value(bo) {
+			continue
+		}
+		if call, ok := cmp.Y.(*ssa.Call); ok && fw.IsBuiltinCall(call, "len") && call.Common().Args[0] == container {
+			return true
+		}
+	}
+	return false
 }
